@@ -6,7 +6,7 @@ From Coq Require Import List NArith ZArith QArith Qcanon Bool Lia Sorted.
 From ACB Require Import Base.Outcome Base.QcExtra Base.Arith Model.Tx Model.Ledger Model.Sfl
      Model.DeltaList Model.App Model.Summary Proofs.Tactics Proofs.C15Full Proofs.C04Sum
      Proofs.RenderProps Proofs.C01Refine Proofs.SortLayout Proofs.SummaryProps
-     Proofs.C10Scan Proofs.C10Sim Proofs.C10Roundtrip Proofs.C10Ranges Proofs.C10Cut.
+     Proofs.C10Scan Proofs.C10Sim Proofs.C10Roundtrip Proofs.C10Ranges Proofs.C10Cut Proofs.C04Inv.
 Import ListNotations.
 Local Open Scope Z_scope.
 
@@ -117,7 +117,7 @@ Theorem roundtrip_ranges regof like (hs : list hold_row) latest rg P K T dsP B1 
   Forall (fun h : hold_row => exists d, In d dsP /\ snd h = d_sd d) hs ->
   (forall h d, In h hs -> In d (dsK ++ dsT) -> plain_loss_sell d = true -> within_after (snd h) (d_sd d) = false) ->
   keep_all dsK = Ok K' ->
-  Forall spec_nz (K ++ T) -> Forall sell_pos K ->
+  Forall spec_nz (K ++ T) -> Forall sell_pos (K ++ T) ->
   exists dsG dsK',
     run exact None (map (hold_tx like) hs ++ K' ++ T) = (dsG ++ dsK' ++ dsT, None)
     /\ map (fun d => (s_sh (d_post d), s_acb (d_post d))) dsG
@@ -153,5 +153,7 @@ Proof.
       cbn [hold_tx summary_buy mk_tx t_sd]. exact (HK1 _ d Hh Hd Hp). }
   assert (Hlp0 : lp st0 = ps_all st0) by reflexivity.
   pose proof (run_part_lp _ _ _ _ _ _ _ Hlp0 HP) as Hlp.
-  exact (roundtrip_run regof like hs K T B1 st1 dsK bK stK dsT K' Hnd HF Htot Hlp Hobs HK HT Hk HW Hgood Hnz Hsp).
+  assert (Hok1 : st_ok st1).
+  { eapply run_part_ok; [exact HP|]. split; cbn; [constructor | apply Qcle_refl]. }
+  exact (roundtrip_run regof like hs K T B1 st1 dsK bK stK dsT K' Hnd HF Htot Hlp Hobs HK HT Hk HW Hgood Hnz Hsp Hok1).
 Qed.
